@@ -137,7 +137,15 @@ def table():
         m = json.load(open(mf))
         caught = [c for c, i in m["checks"].items() if i["verdict"] == "caught"]
         missed = [c for c, i in m["checks"].items() if i["verdict"] == "missed"]
-        rows.append("| %s | %s | %s | %s | %s |" % (m["name"], m["property"], m.get("what", ""), " ".join(caught) or "-", " ".join(missed) or "-"))
+        what = m.get("what", "")
+        readme = os.path.join(os.path.dirname(mf), "README.md")
+        if not what and os.path.exists(readme):
+            import re
+            what = open(readme, errors="replace").readline().strip().lstrip("# ").strip()
+            what = re.sub(r"^(C\d\d\s*/\s*)?([Cc]hange|[Mm]utant|C\d\d mutant)\s*\d*\s*(\([^)]*\))?\s*[-:\u2013]*\s*", "", what)
+        first = [h for h in m.get("history", []) if h["verdict"] == "missed"]
+        note = " (after strengthening; first missed by %s)" % " ".join(sorted({h["check"] for h in first})) if first else ""
+        rows.append("| %s | %s | %s | %s | %s |" % (m["name"], m["property"], what.replace("|", "/"), (" ".join(caught) or "-") + note, " ".join(missed) or "-"))
     print("| seeded change | property | what it changes | caught by (quick) | run but not caught by |")
     print("|---|---|---|---|---|")
     print("\n".join(rows))
